@@ -774,4 +774,180 @@ theorem RmfdCert.mix {Nch Nref n : Nat} {α α' : Nat → Nat → K} {β β' : N
 
 end rmfd
 
+/-! ## 5. eigen-records, raw shapes, the characteristic polynomial -/
+section eig
+variable {K : Type} [Field K]
+
+theorem bmix_lin2 (m : Nat) (Q : Nat → Nat → K) (x y : K) (g h : Nat → K) (J : Nat) :
+    bmix m Q (fun J => x * g J + y * h J) J = x * bmix m Q g J + y * bmix m Q h J := by
+  simp only [bmix, sumTo_eq, Finset.mul_sum, ← Finset.sum_add_distrib]
+  apply Finset.sum_congr rfl; intro q _; ring
+
+/-- `((I⊗Q)·A·(I⊗Q)ᵀ)·((I⊗Q)·g) = (I⊗Q)·(A·g)` -/
+theorem bmix2_mulVec (nb m : Nat) (Q : Nat → Nat → K) (hQ : OrthoOn m Q) (A : Nat → Nat → K) (g : Nat → K) (i : Nat) :
+    ∑ j ∈ range (nb * m), bmix2 m Q A i j * bmix m Q g j
+      = bmix m Q (fun I => ∑ j ∈ range (nb * m), A I j * g j) i := by
+  simp only [bmix2_eq, Finset.sum_mul]
+  rw [Finset.sum_comm, bmix_eq]
+  apply Finset.sum_congr rfl; intro a _
+  rw [← bmix_isometry nb m Q hQ (A (i / m * m + a)) g, Finset.mul_sum]
+  apply Finset.sum_congr rfl; intro j _; ring
+
+/-- the list `(I⊗Q)·v` (`d` components) -/
+def bmixL (m d : Nat) (Q : Nat → Nat → K) (v : List (Plscf.Cx K)) : List (Plscf.Cx K) :=
+  (List.range d).map fun J =>
+    ⟨bmix m Q (fun J' => (v.getD J' ⟨0, 0⟩).re) J, bmix m Q (fun J' => (v.getD J' ⟨0, 0⟩).im) J⟩
+
+/-- the list `R·v` (`l` components) -/
+def rmixL (l : Nat) (R : Nat → Nat → K) (v : List (Plscf.Cx K)) : List (Plscf.Cx K) :=
+  (List.range l).map fun o =>
+    ⟨rmix l R (fun p => (v.getD p ⟨0, 0⟩).re) o, rmix l R (fun p => (v.getD p ⟨0, 0⟩).im) o⟩
+
+theorem bmixL_getD (m d : Nat) (Q : Nat → Nat → K) (v : List (Plscf.Cx K)) (J : Nat) (hJ : J < d) :
+    (bmixL m d Q v).getD J ⟨0, 0⟩
+      = ⟨bmix m Q (fun J' => (v.getD J' ⟨0, 0⟩).re) J, bmix m Q (fun J' => (v.getD J' ⟨0, 0⟩).im) J⟩ := by
+  simp [bmixL, List.getD_eq_getElem?_getD, List.getElem?_map, List.getElem?_range hJ]
+
+/-- the recorded eigenpair with the eigenvector multiplied by `I⊗Q` -/
+def mixEig (m d : Nat) (Q : Nat → Nat → K) (e : EigIn K) : EigIn K :=
+  { lamd := e.lamd, logv := e.logv, q := bmixL m d Q e.q }
+
+/-- **eigen-record transport**: `(λ, q)` recorded for `A` gives `(λ, (I⊗Q)·q)` for `(I⊗Q)·A·(I⊗Q)ᵀ` -/
+theorem EigPair.mix {nb m : Nat} {A A' : Nat → Nat → K} {e : EigIn K} (h : EigPair (nb * m) A e)
+    (Q : Nat → Nat → K) (hQ : OrthoOn m Q)
+    (hA : ∀ i, i < nb * m → ∀ j, j < nb * m → A' i j = bmix2 m Q A i j) :
+    EigPair (nb * m) A' (mixEig m (nb * m) Q e) := by
+  refine ⟨by simp [mixEig, bmixL], ?_⟩
+  intro i hi
+  have hre : ∀ I, I < nb * m → ∑ j ∈ range (nb * m), A I j * (e.q.getD j ⟨0, 0⟩).re
+      = e.lamd.re * (e.q.getD I ⟨0, 0⟩).re + (- e.lamd.im) * (e.q.getD I ⟨0, 0⟩).im := by
+    intro I hI
+    have := congrArg Plscf.Cx.re (h.2 I hI)
+    simp only [Cx.mul, sumTo_eq] at this
+    rw [this]; ring
+  have him : ∀ I, I < nb * m → ∑ j ∈ range (nb * m), A I j * (e.q.getD j ⟨0, 0⟩).im
+      = e.lamd.re * (e.q.getD I ⟨0, 0⟩).im + e.lamd.im * (e.q.getD I ⟨0, 0⟩).re := by
+    intro I hI
+    have := congrArg Plscf.Cx.im (h.2 I hI)
+    simp only [Cx.mul, sumTo_eq] at this
+    rw [this]
+  show (⟨sumTo (nb * m) (fun j => A' i j * ((bmixL m (nb * m) Q e.q).getD j ⟨0, 0⟩).re),
+      sumTo (nb * m) (fun j => A' i j * ((bmixL m (nb * m) Q e.q).getD j ⟨0, 0⟩).im)⟩ : Plscf.Cx K)
+      = Cx.mul e.lamd ((bmixL m (nb * m) Q e.q).getD i ⟨0, 0⟩)
+  rw [bmixL_getD m _ Q e.q i hi]
+  simp only [sumTo_eq, Cx.mul]
+  congr 1
+  · have e1 : ∀ j ∈ range (nb * m), A' i j * ((bmixL m (nb * m) Q e.q).getD j ⟨0, 0⟩).re
+        = bmix2 m Q A i j * bmix m Q (fun J' => (e.q.getD J' ⟨0, 0⟩).re) j := by
+      intro j hj; rw [hA i hi j (mem_range.mp hj), bmixL_getD m _ Q e.q j (mem_range.mp hj)]
+    rw [Finset.sum_congr rfl e1, bmix2_mulVec nb m Q hQ]
+    rw [bmix_congr Q _ (fun I => e.lamd.re * (e.q.getD I ⟨0, 0⟩).re + (- e.lamd.im) * (e.q.getD I ⟨0, 0⟩).im) i
+      (fun q hq => hre _ (Cov.blk_lt hi hq)), bmix_lin2]
+    ring
+  · have e1 : ∀ j ∈ range (nb * m), A' i j * ((bmixL m (nb * m) Q e.q).getD j ⟨0, 0⟩).im
+        = bmix2 m Q A i j * bmix m Q (fun J' => (e.q.getD J' ⟨0, 0⟩).im) j := by
+      intro j hj; rw [hA i hi j (mem_range.mp hj), bmixL_getD m _ Q e.q j (mem_range.mp hj)]
+    rw [Finset.sum_congr rfl e1, bmix2_mulVec nb m Q hQ]
+    rw [bmix_congr Q _ (fun I => e.lamd.re * (e.q.getD I ⟨0, 0⟩).im + e.lamd.im * (e.q.getD I ⟨0, 0⟩).re) i
+      (fun q hq => him _ (Cov.blk_lt hi hq)), bmix_lin2]
+
+/-- **the raw shapes before normalisation**: `C'·((I⊗Q)·q) = R·(C·q)` for `C' = R·C·(I⊗Q)ᵀ` -/
+theorem phiRaw_mix {nb m l : Nat} (Q R : Nat → Nat → K) (hQ : OrthoOn m Q) (C C' : Mat K) (hr : C.r = l)
+    (hr' : C'.r = l) (hc : C.c = nb * m) (hc' : C'.c = nb * m)
+    (he : ∀ o, o < l → ∀ j, j < nb * m → C'.e o j = rmix l R (fun p => bmix m Q (C.e p) j) o)
+    (q : List (Plscf.Cx K)) :
+    phiRaw C' (bmixL m (nb * m) Q q) = rmixL l R (phiRaw C q) := by
+  unfold rmixL
+  conv_lhs => unfold phiRaw
+  rw [hr']
+  apply List.map_congr_left
+  intro o ho
+  have ho' := List.mem_range.mp ho
+  have key : ∀ (g : Nat → K), ∑ t ∈ range (nb * m), C'.e o t * bmix m Q g t
+      = rmix l R (fun p => ∑ t ∈ range (nb * m), C.e p t * g t) o := by
+    intro g
+    have e1 : ∀ t ∈ range (nb * m), C'.e o t * bmix m Q g t
+        = ∑ p ∈ range l, R o p * (bmix m Q (C.e p) t * bmix m Q g t) := by
+      intro t ht
+      rw [he o ho' t (mem_range.mp ht), rmix_eq, Finset.sum_mul]
+      apply Finset.sum_congr rfl; intro p _; ring
+    rw [Finset.sum_congr rfl e1, Finset.sum_comm, rmix_eq]
+    apply Finset.sum_congr rfl; intro p _
+    rw [← Finset.mul_sum, bmix_isometry nb m Q hQ]
+  rw [hc']
+  simp only [sumTo_eq]
+  congr 1
+  · have e2 : ∀ t ∈ range (nb * m), C'.e o t * ((bmixL m (nb * m) Q q).getD t ⟨0, 0⟩).re
+        = C'.e o t * bmix m Q (fun J' => (q.getD J' ⟨0, 0⟩).re) t := by
+      intro t ht; rw [bmixL_getD m _ Q q t (mem_range.mp ht)]
+    rw [Finset.sum_congr rfl e2, key]
+    apply rmix_congr; intro p hp
+    rw [phiRaw_getD C q p (by rw [hr]; exact hp), hc]
+    simp only [sumTo_eq]
+  · have e2 : ∀ t ∈ range (nb * m), C'.e o t * ((bmixL m (nb * m) Q q).getD t ⟨0, 0⟩).im
+        = C'.e o t * bmix m Q (fun J' => (q.getD J' ⟨0, 0⟩).im) t := by
+      intro t ht; rw [bmixL_getD m _ Q q t (mem_range.mp ht)]
+    rw [Finset.sum_congr rfl e2, key]
+    apply rmix_congr; intro p hp
+    rw [phiRaw_getD C q p (by rw [hr]; exact hp), hc]
+    simp only [sumTo_eq]
+
+/-- entry `(I, J)` of the block-diagonal `I⊗Q` -/
+def bdiag (m : Nat) (Q : Nat → Nat → K) (I J : Nat) : K := if I / m = J / m then Q (I % m) (J % m) else 0
+
+theorem bdiag_sum {nb m : Nat} (Q : Nat → Nat → K) (g : Nat → K) (I : Nat) (hI : I < nb * m) :
+    ∑ J ∈ range (nb * m), bdiag m Q I J * g J = bmix m Q g I := by
+  have hm : 0 < m := by
+    rcases Nat.eq_zero_or_pos m with h | h
+    · subst h; simp at hI
+    · exact h
+  rw [sum_blocks, Finset.sum_eq_single (I / m), bmix_eq]
+  · apply Finset.sum_congr rfl; intro b hb
+    simp only [bdiag, blk_div (I / m) (mem_range.mp hb), blk_mod (I / m) (mem_range.mp hb), if_true]
+  · intro k _ hk
+    apply Finset.sum_eq_zero; intro b hb
+    simp only [bdiag, blk_div k (mem_range.mp hb), if_neg (Ne.symm hk), zero_mul]
+  · intro hn
+    exact absurd (mem_range.mpr ((Nat.div_lt_iff_lt_mul hm).mpr hI)) hn
+
+/-- **the same characteristic polynomial**: conjugation by the orthogonal `I⊗Q` is a similarity -/
+theorem charpoly_mix {nb m : Nat} (Q : Nat → Nat → K) (hQ : OrthoOn m (trQ Q)) (A A' : Nat → Nat → K)
+    (hA : ∀ i, i < nb * m → ∀ j, j < nb * m → A' i j = bmix2 m Q A i j) :
+    (toMx (nb * m) (nb * m) A').charpoly = (toMx (nb * m) (nb * m) A).charpoly := by
+  set d := nb * m with hd
+  let U : Matrix (Fin d) (Fin d) K := toMx d d (bdiag m Q)
+  have hUU : U * U.transpose = 1 := by
+    ext i j
+    simp only [U, toMx, Matrix.mul_apply, Matrix.transpose_apply, Matrix.one_apply]
+    rw [Fin.sum_univ_eq_sum_range (fun x => bdiag m Q i.1 x * bdiag m Q j.1 x) d, bdiag_sum Q _ i.1 i.2, bmix_eq]
+    have hm : 0 < m := by
+      rcases Nat.eq_zero_or_pos m with h | h
+      · have := i.2; subst h; simp [hd] at this
+      · exact h
+    by_cases hk : j.1 / m = i.1 / m
+    · have e1 : ∀ q ∈ range m, Q (i.1 % m) q * bdiag m Q j.1 (i.1 / m * m + q) = trQ Q q (i.1 % m) * trQ Q q (j.1 % m) := by
+        intro q hq
+        simp only [bdiag, blk_div (i.1 / m) (mem_range.mp hq), blk_mod (i.1 / m) (mem_range.mp hq), if_pos hk, trQ]
+      rw [Finset.sum_congr rfl e1, hQ _ (Nat.mod_lt _ hm) _ (Nat.mod_lt _ hm)]
+      by_cases e2 : i.1 % m = j.1 % m
+      · have : i = j := Fin.ext (by rw [← Nat.div_add_mod' i.1 m, ← Nat.div_add_mod' j.1 m, hk, e2])
+        rw [if_pos e2, if_pos this]
+      · rw [if_neg e2, if_neg (fun e3 => e2 (by rw [e3]))]
+    · have e1 : ∀ q ∈ range m, Q (i.1 % m) q * bdiag m Q j.1 (i.1 / m * m + q) = 0 := by
+        intro q hq
+        simp only [bdiag, blk_div (i.1 / m) (mem_range.mp hq), if_neg hk, mul_zero]
+      rw [Finset.sum_congr rfl e1, Finset.sum_const_zero, if_neg (fun e3 => hk (by rw [e3]))]
+  have hUU' : U.transpose * U = 1 := mul_eq_one_comm.mp hUU
+  have e : toMx d d A' = U * (toMx d d A * U.transpose) := by
+    ext i j
+    simp only [U, toMx, Matrix.mul_apply, Matrix.transpose_apply]
+    rw [hA i.1 i.2 j.1 j.2, bmix2_eq', Fin.sum_univ_eq_sum_range
+      (fun x => bdiag m Q i.1 x * ∑ y : Fin d, A x y.1 * bdiag m Q j.1 y.1) d, bdiag_sum Q _ i.1 i.2]
+    apply bmix_congr; intro a ha
+    rw [Fin.sum_univ_eq_sum_range (fun y => A (i.1 / m * m + a) y * bdiag m Q j.1 y) d, ← bdiag_sum Q _ j.1 j.2]
+    apply Finset.sum_congr rfl; intro y _; ring
+  rw [e, Matrix.charpoly_mul_comm, Matrix.mul_assoc, hUU', Matrix.mul_one]
+
+end eig
+
 end PV.Cov
